@@ -389,7 +389,7 @@ def _strip_nested_loops(s: str) -> str:
 
 
 def _has_own_continue(s: str) -> bool:
-    return re.search(r'\bcontinue\b', _strip_nested_loops(s)) is not None
+    return re.search(r'\bcontinue\b', _strip_nested_loops(s).replace('/*continue*/', '')) is not None
 
 
 def _r3_flag_stmt(s: str, flag: str, log: list) -> str:
